@@ -38,10 +38,39 @@
 // NON-TRIVIAL case: a copy made earlier was still alive when its source (or the copy) was mutated, or an aliased call was made
 // on a value that is neither empty nor universe (rows: not zero).
 //
+// Known-finding candidates (a guard is active only with VERIF_KF_ACTIVE=<id>,...; with no id active the named check fails / the case crashes):
+//   KF-C13-1  Polyhedron::limited_H79_extrapolation_assign / limited_BHRZ03_extrapolation_assign (hence bounded_*) (Polyhedron_widenings.cc:305-376,
+//             844-915) read cs.num_rows() first, then minimize y and x, then index cs[i] up to the OLD row count: with cs a reference into x's
+//             or y's own constraint system (x.limited_H79_extrapolation_assign(y, x.constraints())) rows past the end are read: SIGSEGV.
+//             Guard: those calls get a copy of the system (the crash cannot be turned into a check).
+//   KF-C13-2  the same in Grid::limited_{congruence_,generator_,}extrapolation_assign(y, cgs) (Grid_widenings.cc:160-230, 369-, 470-): SIGSEGV.
+//   KF-C13-3  Pointset_Powerset::BGP99_extrapolation_assign(y, wf, max) (Pointset_Powerset_templates.hh:1384) pairwise-reduces / collapses *this
+//             before reading y: x.BGP99(x) differs from x.BGP99(copy of x).  Check <powerset>.alias.BGP99_extrapolation_assign.
+//   KF-C13-4  BD_Shape::simplify_using_context_assign(y) (BD_Shape_templates.hh:2583-2588) swaps x with the universe and then reads
+//             y.marked_empty(): for an empty x, x.simplify_using_context_assign(x) returns true.  Check BD_Shape<*>.alias.simplify_using_context_assign.
+//   KF-C13-5  sparse Linear_Expression: e -= e, add_mul_assign(e, -1, e), sub_mul_assign(e, 1, e) (Sparse_Row::linear_combine(y, 1, -1),
+//             Sparse_Row.cc:530-541, resets elements of the row it iterates on as y): -3A + 4B + C + 3 becomes 4B + C.  Checks Linear_Expression.alias.x -= y,
+//             .alias.add_mul_assign(x, c, y), .alias.sub_mul_assign(x, c, y).
+//   KF-C13-6  Linear_Expression::linear_combine(y, c1, c2) / linear_combine_lax with y == *this, both representations: *this is scaled in place and
+//             then read as y: c1 (1 + c2) e instead of (c1 + c2) e.  Checks Linear_Expression.alias.x.linear_combine(y, c1, c2), ...linear_combine_lax...
+//   KF-C13-7  Pointset_Powerset::simplify_using_context_assign(y) (Pointset_Powerset_templates.hh:777-826) rewrites the disjuncts of *this in place
+//             while y is the context: x.simplify(x) differs from x.simplify(copy of x).  Check <powerset>.alias.simplify_using_context_assign.
+//   KF-C13-8  Polyhedron::add_generator(g) (Polyhedron_public.cc:1463-1469) reads g again after gen_sys.insert(g): with g a reference into the
+//             receiver's own generator system (x.add_generator(*x.generators().begin())) the insertion reallocates the rows: use after free.
+//             Guard: the call gets a generator of a copy.
+//   KF-C13-9  Octagonal_Shape<integer>::strong_reduction_assign() const (Octagonal_Shape_templates.hh:3037; called by minimized_constraints() and on
+//             the const argument of BHMZ05_widening_assign) changes the VALUE when two variables are pinned to constants one of which is a
+//             half-integer: {A = -2, 2B = -3}.minimized_constraints() leaves {2B = -3}.  Checks Octagonal_Shape<mpz_class>.frame.* / .value.* / .alias.* /
+//             .arg.* / .temp.value; guard: no reducing call on such values.
+//
 // Avoided known classes: Box bounded_affine_(pre)image / generalized_affine_preimage / lhs-rhs generalized images (KF-C03-1,2,4,5,7),
-// Octagonal_Shape::simplify_using_context_assign (KF-C03-3), Product add_constraint(s) (throwing, C10), two constraints pending on
-// a solved MIP_Problem and dimension / integrality changes after a solve (KF-C06-1), Linear_Expression::linear_combine(y, Variable)
-// (declared, never defined).
+// Octagonal_Shape::simplify_using_context_assign (KF-C03-3), Product add_constraint(s) / add_recycled_* with anything but equalities
+// (the Grid component throws), two constraints pending on a solved MIP_Problem and dimension / integrality changes after a solve
+// (KF-C06-1), Linear_Expression::linear_combine(y, Variable) (declared, never defined), Congruence::scale with a negative factor (negative
+// modulus), BD_Shape / Octagonal_Shape limited extrapolations with a constraint system holding a CONSTANT constraint (the constraints() of an
+// empty shape): get_limiting_shape / get_limiting_octagon do not skip it and read dbm[dim + 1] / divide by zero - a defect outside C13.
+// Tolerated (tagged): Pointset_Powerset contains / strictly_contains / definitely_entails answer differently when the argument still holds
+// undropped empty disjuncts (x.pred(x) omega-reduces both operands, x.pred(copy) only the receiver), as accepted by C09.
 #include "poly_common.hh"
 #include "reflattice_x.hh"
 #include <memory>
@@ -884,7 +913,7 @@ template <typename P> struct SolverProg {
 
 void vf_case(Ctx& c) {
   Tape& t = c.t;
-  switch (t.weighted({10, 10, 9, 6, 4, 6, 7, 10, 8, 8, 22, 5, 5})) {
+  switch (t.weighted({10, 10, 9, 6, 4, 6, 7, 10, 8, 8, 36, 5, 5})) {
   case 0: { Prog<C_Polyhedron> p(c); p.run(); break; }
   case 1: { Prog<NNC_Polyhedron> p(c); p.run(); break; }
   case 2: { Prog<Grid> p(c); p.run(); break; }
